@@ -359,7 +359,14 @@ func (cw *commandUnit) Cancel() error {
 	proc.Wait()
 	verifhook.At("cancel.before_write")
 
-	cw.UpdateBasicStatus(WorkStateCanceled, "Canceled", -1)
+	cw.UpdateFullStatus(func(status *StatusFileData) {
+		// The runner may already have recorded success before the signal reached it:
+		// a unit that succeeded stays succeeded.
+		if status.State != WorkStateSucceeded {
+			status.State = WorkStateCanceled
+			status.Detail = "Canceled"
+		}
+	})
 
 	return nil
 }
